@@ -1,14 +1,12 @@
 CONSTANTS
-  Keys = {"x", "y"}
-  Ids = {1, 2}
-  Buckets = {1, 2}
-  MaxVersion = 5
-  MaxCrash = 1
-SPECIFICATION MCSpec
+  Keys <- TrKeys
+  Ids <- TrIds
+  Buckets <- TrBuckets
+  MaxVersion <- TrMaxVersion
+SPECIFICATION TraceSpec
 INVARIANT LoadIsCommitted
 INVARIANT ReferencedExist
 INVARIANT CleanBucketsDurable
 INVARIANT NoDuplicateHomes
-PROPERTY MutationsOK
-VIEW MCView
+POSTCONDITION TraceAccepted
 CHECK_DEADLOCK FALSE
